@@ -70,7 +70,8 @@ def run_index_case(case, res, what, prop):
     blocks = sim.blocks
     ref_full = RefIndex(blocks, ACTIVATION) if len(blocks) < 50 else None
     w = world.World(reorg_limit=case.get('limit', 200), activation=ACTIVATION,
-                    prefetch=case.get('prefetch', 100), chunk_size=case.get('chunk'))
+                    prefetch=case.get('prefetch', 100), chunk_size=case.get('chunk'),
+                    small_files=case.get('small_files', False))
     failures = []
     try:
         w.daemon.set_chain(blocks)
@@ -158,4 +159,14 @@ def fixed_cases(tier):
     # a block with 253 transactions (3-byte tx count) spending 252 outputs created in one tx
     cases.append(dict(recipes=['big252', 'sweep252'], flush='F-', prefetch=100, limit=200))
     cases.append(dict(recipes=['big252', 'sweep252'], flush='--', prefetch=100, limit=200))
+    # flat files split into tiny physical files: every flush straddles file boundaries
+    cases.append(dict(recipes=long_recipes[:130], flush_every=True, prefetch=10, limit=5,
+                      small_files=True))
+    cases.append(dict(recipes=['big252', 'sweep252', 'old'], flush='F-H', prefetch=100, limit=200,
+                      small_files=True))
+    for rs in (['fan', 'chain2', 'old', 'multi', 'new', 'self'], ['old', 'new', 'fan', 'opret', 'empty', 'old']):
+        for fl in itertools.product('-HF', repeat=len(rs)):
+            if tier == 'quick' and fl.count('-') < 2:
+                continue
+            cases.append(dict(recipes=rs, flush=''.join(fl), prefetch=3, limit=200, small_files=True))
     return cases
